@@ -388,6 +388,56 @@ Theorem C14_listed_guard_refuted :
 Proof. exact listed_guard_refuted. Qed.
 Print Assumptions C14_listed_guard_refuted.
 
+(* ---------- Range spellings; body wrappers (round 8) ---------- *)
+
+(* any Range value at all - whatever unit, letter case, spacing - and the transport does not ask for gzip,
+   on every stack; without AutoDecompression the response is returned as received *)
+Theorem C14_any_range_value_is_a_range_request : forall st c auto ended r,
+  q_range c <> [] ->
+  asked_gzip st c = false /\ (auto = false -> respond st c auto ended r = r).
+Proof. exact any_range_value_is_a_range_request. Qed.
+Print Assumptions C14_any_range_value_is_a_range_request.
+
+(* the three conditions `asked_gzip` transcribes, as they stand in the source (regenerated every run) *)
+Theorem C14_asked_gzip_conditions_as_modelled :
+  asked_gzip_conditions =
+  [ (bs "transport.go", bs "roundTrip",
+     bs "!pc.t.DisableCompression && req.Header.Get(""Accept-Encoding"") == """" && req.Header.Get(""Range"") == """" && req.Method != ""HEAD""");
+    (bs "internal/http2/transport.go", bs "roundTrip",
+     bs "!cc.t.DisableCompression && req.Header.Get(""Accept-Encoding"") == """" && req.Header.Get(""Range"") == """" && !cs.isHead");
+    (bs "internal/http3/http_stream.go", bs "SendRequestHeader",
+     bs "!s.DisableCompression && !s.disableCompression && req.Method != http.MethodHead && req.Header.Get(""Accept-Encoding"") == """" && req.Header.Get(""Range"") == """"") ].
+Proof. exact asked_gzip_conditions_as_modelled. Qed.
+Print Assumptions C14_asked_gzip_conditions_as_modelled.
+
+(* a response whose body got a byte-preserving wrapper (download callback, dump) is read exactly like
+   the unwrapped one *)
+Theorem C14_wrapped_reads_alike : forall dec sizes st c auto ended r,
+  drain dec sizes (open_resp (with_body (respond st c auto ended r) (wrap_body (r_body (respond st c auto ended r))))) =
+  drain dec sizes (open_resp (respond st c auto ended r)).
+Proof. exact wrapped_reads_alike. Qed.
+Print Assumptions C14_wrapped_reads_alike.
+
+(* the wrappers go below the decoder (table regenerated from transport.go wrapResponseBody) *)
+Theorem C14_wrappers_go_below_the_decoder :
+  wrap_response_body_cases =
+  [ (bs "wrapResponseBody", bs "*gzipReader", bs "b.body.body = wrap(b.body.body)");
+    (bs "wrapResponseBody", bs "compress.CompressReader", bs "b.SetUnderlyingBody(wrap(b.GetUnderlyingBody()))");
+    (bs "wrapResponseBody", bs "default", bs "res.Body = wrap(res.Body)") ].
+Proof. exact wrappers_go_below_the_decoder. Qed.
+Print Assumptions C14_wrappers_go_below_the_decoder.
+
+(* the wrapper put in the decoder's place (NOT the code): coded bytes under rewritten headers *)
+Theorem C14_wrapper_replacing_decoder_refuted :
+  let r' := respond H1 (cfg_under s_off q_plain) false false r_gz in
+  r_ce r' = [] /\ r_unc r' = true /\
+  fst (drain id_codec0 [9; 9] (open_resp (with_body r' (wrap_replacing_decoder (r_body r'))))) =
+    (bs "zzzz", Some EOF) /\
+  open_resp (with_body r' (wrap_replacing_decoder (r_body r'))) = RPlain (bs "zzzz") /\
+  open_resp r' = RLazy Gzip (bs "zzzz").
+Proof. exact wrapper_replacing_decoder_refuted. Qed.
+Print Assumptions C14_wrapper_replacing_decoder_refuted.
+
 (* ---------- several clients (Client.Clone) ---------- *)
 
 (* what client k gets depends on client k's own settings only, whatever the original and the other
